@@ -255,7 +255,16 @@ let gen_forest r ~fmt ~sizes ~oob ~maxattrs : forest =
   for j = 1 to Array.length sizes - 1 do starts.(j) <- starts.(j - 1) + sizes.(j - 1) done;
   Array.to_list (Array.mapi (fun j n ->
     let depths = gen_depths r n 4 in
-    List.map (fun d ->
+    let tags = List.map (fun _ -> pick r tag_pool) depths in
+    (* write order of gimli::write::Unit: root-level DW_TAG_base_type subtrees first; a ULEB-coded typed
+       operation can only name a DIE that is written strictly earlier *)
+    let da = Array.of_list depths and ta = Array.of_list tags in
+    let top = Array.make n 0 in
+    let cur = ref 0 in
+    Array.iteri (fun i d -> if d = 1 then cur := i; top.(i) <- !cur) da;
+    let key i = ((if n > 0 && ta.(top.(i)) = t_base then 0 else 1), i) in
+    List.mapi (fun i d ->
+      let earlier = List.filter (fun t -> compare (key t) (key i) < 0) (List.init n (fun t -> t)) in
       let na = rand_int r (maxattrs + 1) in
       let used = ref [] in
       let fresh pool = let rec go t = let x = pick r pool in if List.mem x !used && t < 20 then go (t + 1) else x in
@@ -288,11 +297,16 @@ let gen_forest r ~fmt ~sizes ~oob ~maxattrs : forest =
                       let info = op_info opi in
                       let nest = (match rand_int r 8 with 0 -> 1 | 1 -> 2 | _ -> 0) in
                       let t = gen_target r ~info ~j ~starts ~sizes ~oob in
-                      let t = if (opi = 3 || opi = 4 || opi = 0 || opi = 1) && rand_int r 6 = 0 then (4, 0) else t in
+                      let t = if opi <= 4 && opi <> 2 && rand_int r 6 = 0 then (4, 0) else t in
+                      let opi, t =
+                        if opi <= 4 && fst t = 0 then begin
+                          if earlier <> [] then (opi, (0, starts.(j) + List.nth earlier (rand_int r (List.length earlier))))
+                          else if opi = 2 then (6, t) else (opi, (4, 0))
+                        end else (opi, t) in
                       { opi; nest; otg = t }) in
                     Some { name = n; k = Expr ops }
                 | None -> None)) (List.init na (fun x -> x)) in
-      { depth = d; tag = pick r tag_pool; attrs }) depths) sizes)
+      { depth = d; tag = ta.(i); attrs }) depths) sizes)
 
 let count (f : forest) = List.fold_left (fun a u -> a + List.length u) 0 f
 let subsets n : int list list =
